@@ -490,21 +490,47 @@ def gen_case(rng, n_ops=6, **kw):
 # that are present and absent, replacement values that conform and that do not, nested
 # keywords with the failing one first or last; copy-on-write and in place.  (Random histories
 # rarely address an element that exists.)
-def element_cases(rng, n, inplace_values=(False, True)):
+def element_cases(rng, n, inplace_values=(False, True), flavour=None, handover=0.2):
     from inst_common import resolve_table
     out = []
     guard = 0
     while len(out) < n and guard < 20 * n:
         guard += 1
-        table = gen_table(rng, None)
+        table = gen_table(rng, flavour)
         if table[1].get("frozen"):
             continue
         _, heap0 = resolve_table(table)
         h = Hist(rng, table, len(heap0))
         fam = rng.choice(["list", "set", "dict", "list_k1", "dict_k1"])
+        if rng.random() < handover:
+            fam = "handover"
         inplace = rng.choice(list(inplace_values))
         hargs = {"inplace": inplace, "if_": True}
-        if fam in ("list", "set", "dict"):
+        if fam == "handover":
+            # an EXISTING instance (which the caller keeps) handed over together with keyword
+            # overrides: the holder gets an updated copy, the caller's object stays as it is
+            item = h.new_k1()
+            kw = [(1, V(rng.choice([3, 4])))]
+            if rng.random() < 0.4:
+                kw.append((3, V(4)))
+            if rng.random() < 0.25:
+                kw[rng.randrange(len(kw))] = (kw[0][0], S(7)) if kw[0][0] == 1 else (3, S(7))
+            aid = rng.choice([53, 53, 54, 4, 4])
+            x = h.add(("construct", 2, None, [(1, V(1))]), ("inst", 2))
+            if aid == 53:
+                kind = "with_item"
+                hargs["pos"] = [item]
+                if rng.random() < 0.3:
+                    hargs["index"] = V(rng.choice([0, -1]))
+                    hargs["insert"] = True
+            elif aid == 54:
+                kind = "with_item"
+                hargs["pos"] = [S(7), item]
+            else:
+                kind = rng.choice(["with", "update"])
+                hargs["pos"] = [item]
+            hargs["kw"] = kw
+        elif fam in ("list", "set", "dict"):
             vals = rng.sample([0, 1, 2, 3], rng.choice([1, 2, 3]))
             aid = {"list": 50, "set": 52, "dict": 51}[fam]
             if fam == "dict":
